@@ -68,16 +68,16 @@ def r_alpha(ctx, fqs, floor=0):
     for fq in sorted(fqs):
         f = ctx.p.func(fq)
         k = 0
-        for nd in f.nodes:
-            for r in ctx.roots(nd):
-                for c in ast.walk(r):
-                    if isinstance(c, ast.Constant) and isinstance(c.value, str) and len(c.value) == 4 \
-                            and set(c.value.upper()) == set('ACGT'):
-                        n += 1
-                        k += 1
-                        run.check(c.value == 'ACGT', 'R-ALPHA', f, 'alphabet-literal#%d' % k, nd.lineno,
-                                  bad_detail='alphabet literal %r differs from "ACGT": index<->letter conversion '
-                                             'disagrees with the rest of the package' % c.value,
-                                  nontrivial=False, inputs='every strand / k-mer')
+        seen = set()
+        for nd, s in ctx.all_subterms(f):
+            if s[0] == 'c' and isinstance(s[1], str) and len(s[1]) == 4 and set(s[1].upper()) == set('ACGT') \
+                    and s[1] not in seen:
+                seen.add(s[1])
+                n += 1
+                k += 1
+                run.check(s[1] == 'ACGT', 'R-ALPHA', f, 'alphabet-literal#%d' % k, nd.lineno,
+                          bad_detail='alphabet literal %r differs from "ACGT": index<->letter conversion '
+                                     'disagrees with the rest of the package' % s[1],
+                          nontrivial=False, inputs='every strand / k-mer')
     run.floor('R-ALPHA', 'alphabet literals', n, floor)
     return n
